@@ -364,6 +364,67 @@ def run_pool(ctx, thorough):
     ctx.bump("pool_orders_replayed", n_orders)
 
 
+def map_options(ctx):
+    """runner.map passes the per-run options on to every item: item i of map(..., select, on_missing) is exactly
+    run(item i, select, on_missing) (the specification of map is one run per combination; what a single run does with
+    these options is C16's subject).  Items take different branches, so a selected output is missing for some of them."""
+    items = item_names("x", 3)
+    sub = inner_graph("branch", ["x"], (), [items[1]])
+    n = 0
+    for mode in ("sync", "async"):
+        for sel in (["n"], ["p"], ["p", "n"]):
+            for om in ("ignore", "warn", "error"):
+                for eh in ("continue", "raise"):
+                    rt = build.Runtime(sub)
+                    with warnings.catch_warnings():
+                        warnings.simplefilter("ignore")
+                        g = build.build_graph(rt, sub)
+                    runner = SyncRunner() if mode == "sync" else AsyncRunner()
+
+                    def call(fn, *a, **kw):
+                        with warnings.catch_warnings(record=True) as wl:
+                            warnings.simplefilter("always")
+                            try:
+                                r = fn(*a, **kw)
+                                if asyncio.iscoroutine(r):
+                                    r = asyncio.run(r)
+                                return r, None, len([w for w in wl if issubclass(w.category, UserWarning)])
+                            except Exception as e:  # noqa: BLE001
+                                return None, e, len([w for w in wl if issubclass(w.category, UserWarning)])
+
+                    def obs(r):
+                        return {"status": r.status.value, "values": {k: IR.canon(v) for k, v in r.values.items()},
+                                "error": type(r.error).__name__ if r.error is not None else None}
+                    opts = dict(select=sel, on_missing=om, on_internal_override="ignore")
+                    singles = []
+                    for it in items:
+                        r, e, nw = call(runner.run, g, {"x": it, "b": "in.b"}, error_handling="continue", **opts)
+                        singles.append(({"raised": type(e).__name__} if e is not None else obs(r), nw))
+                    rs, e, nw = call(runner.map, g, {"x": list(items), "b": "in.b"}, map_over="x", error_handling=eh, **opts)
+                    ctx.count()
+                    ctx.traces()
+                    n += 1
+                    wit = {"program": sub, "mode": mode, "select": sel, "on_missing": om, "error_handling": eh, "single_runs": singles}
+                    fails = [i for i, (o, _) in enumerate(singles) if o.get("status") == "failed"]
+                    if eh == "raise" and fails:
+                        if e is None:
+                            ctx.violation("map-options:raise-mode-no-error", dict(wit, map=[obs(r) for r in rs]),
+                                          f"{mode} map(select={sel}, on_missing={om}, raise): item {fails[0]} fails on its own ({singles[fails[0]][0]}), map returned {[obs(r)['status'] for r in rs]}")
+                        continue
+                    if e is not None:
+                        ctx.violation("map-options:map-raised", dict(wit, raised=type(e).__name__),
+                                      f"{mode} map(select={sel}, on_missing={om}, {eh}) raised {type(e).__name__}: {str(e)[:120]}; the single runs give {[o for o, _ in singles]}")
+                        continue
+                    got = [obs(r) for r in rs]
+                    if got != [o for o, _ in singles]:
+                        ctx.violation("map-options:item-differs-from-its-run", dict(wit, map=got),
+                                      f"{mode} map(select={sel}, on_missing={om}, {eh}): items {got}, the same runs one by one {[o for o, _ in singles]}")
+                    elif nw != sum(k for _, k in singles):
+                        ctx.violation("map-options:warnings", dict(wit, map_warnings=nw),
+                                      f"{mode} map(select={sel}, on_missing={om}, {eh}): {nw} warnings, the single runs give {sum(k for _, k in singles)}")
+    ctx.bump("map_option_cases", n)
+
+
 def run(tier, seed):
     ctx = Ctx(PID, tier, seed, "model_checking")
     rng = random.Random(seed)
@@ -388,11 +449,12 @@ def run(tier, seed):
         compare_map(ctx, j, res[j["id"]], o, tag)
     ctx.sample({"mapping_node_case": pairs[len(pairs) // 2][1], "runner_map_case": mj[len(mj) // 2][1],
                 "model_results": [{"status": r["status"], "values": r["values"]} for r in res[mj[len(mj) // 2][0]["id"]]["results"]][:3]})
+    map_options(ctx)
     # C. worker pool completion orders
     run_pool(ctx, thorough)
     ctx.assumptions += ["Combos / list collection are defined in HGEngine.tla (Combos, ExecNode map branch) and evaluated by TLC; runner.map expectations = one RunProg per combination (Predict!ObserveMap)",
                         "MapPool.tla is model-checked (input order restored, first error in input order, pool bound, termination) for every configuration; every completion order TLC enumerates is replayed on AsyncRunner.map by the controlled driver"]
-    return ctx.finish(rule="mapping nodes and runner.map over inner graphs {single, chain, multi-output, branching} x 1-2 mapped parameters x zip/product x list lengths 0..3 x raise/continue x failing items (first, second, first+last) x renamed wrappers x clone settings x runner; worker pool: N in 2..3, k in 0..3, failing subsets, raise/continue, ALL completion orders (TLC) replayed; distinct = structural hash")
+    return ctx.finish(rule="mapping nodes and runner.map over inner graphs {single, chain, multi-output, branching} x 1-2 mapped parameters x zip/product x list lengths 0..3 x raise/continue x failing items (first, second, first+last) x renamed wrappers x clone settings x runner; runner.map with select x on_missing x raise/continue = the single runs of its items; worker pool: N in 2..3, k in 0..3, failing subsets, raise/continue, ALL completion orders (TLC) replayed; distinct = structural hash")
 
 
 def replay(path):
